@@ -78,6 +78,11 @@ fn gen_program(seed: u64, i: u64, corpus: &Corpus) -> (String, Project, String) 
       p.modules.push(("zoo.Errors".into(), zoo));
       edits += 1;
     }
+    if rng.chance(1, 2) {
+      // one module that does not even parse next to modules with ordinary checker errors
+      p.modules.push(("zoo.Broken".into(), "class Broken {\n  function f(: int = \n  function g(): int = 1 +\n}\n".into()));
+      edits += 1;
+    }
     return (format!("rejected variant of pgen seed {pseed} ({edits} edits)"), p, g.entry);
   }
   if i % 4 == 1 {
